@@ -985,3 +985,13 @@ def unused_loop_variables(fn_node):
             used = {x.id for b in n.body + n.orelse for x in ast.walk(b) if isinstance(x, ast.Name) and isinstance(x.ctx, ast.Load)}
             out += [(n, v) for v in names if v not in used]
     return out
+
+
+def inlined_expr(ctx, fn, expr):
+    """`expr` (part of a statement of fn) with the single-definition locals it reads replaced by their definitions -
+    as an AST, so that render() / unparse see through temporaries (`t = cluster.config.groups; f(t)` reads as `f(cluster.config.groups)`)."""
+    st = ctx.stmt_of(fn, expr)
+    nodes = ctx.nodes_of(fn, st) if st is not None else []
+    if not nodes:
+        nodes = ctx.cfg(fn).nodes_of(expr)
+    return inline_locals(ctx, fn, expr, nodes[0]) if nodes else expr
